@@ -1501,6 +1501,18 @@ def _transpose(I, args, kw):
     return permute_axes(a, axes)
 
 
+@_np('swapaxes')
+def _swapaxes(I, args, kw):
+    a = _as_arr(I, args[0])
+    i, j = args[1], args[2]
+    if is_sym(i) or is_sym(j):
+        raise Unsupported('swapaxes with symbolic axes')
+    order = list(range(a.ndim))
+    i, j = i % a.ndim, j % a.ndim
+    order[i], order[j] = order[j], order[i]
+    return permute_axes(a, order)
+
+
 @_np('moveaxis')
 def _moveaxis(I, args, kw):
     a = _as_arr(I, args[0])
